@@ -3,6 +3,7 @@ package main
 
 import (
 	"verifharness/mc"
+	_ "verifharness/props/c01"
 	_ "verifharness/props/c05"
 )
 
